@@ -45,13 +45,17 @@ def _one(task):
             def _with(fn):
                 if fn is None:
                     return None
-                return lambda o, p, ins: fn(o, p, dict(ins, **{n: SV.lift(z3.BitVecVal(v, bw), W)
-                                                               for n, (v, bw) in consts.items()}))
+                def wrapped(o, p, ins):
+                    extra = {}
+                    for n, (v, bw) in consts.items():
+                        extra[n] = ins[bw] if v == 'alias' else SV.lift(z3.BitVecVal(v, bw), W)
+                    return fn(o, p, dict(ins, **extra))
+                return wrapped
             spec, pre = _with(c.spec), _with(c.pre)
         status, cex, dt, names = comb_check(block, spec, params, W, pre_fn=pre,
                                             timeout_ms=opts.get('timeout_ms', 60000))
         if cm and status == 'refuted':
-            cex['consts'] = {n: v for n, (v, bw) in consts.items()}
+            cex['consts'] = {n: (bw if v == 'alias' else v) for n, (v, bw) in consts.items()}
         return dict(task=task, status=status, cex=cex, solver_s=dt, outputs=names, lenprob=lenprob,
                     nets=len(block.logic), wall=time.time() - t0)
     except Exception:
@@ -83,7 +87,7 @@ def run_comb_family(ctx, famname, cases, function, text, opts=None):
         # constant-operand twins of every `every`-th case (one operand position, or all of them)
         for i, (k, p) in enumerate(cases):
             if i % every == 0 and isinstance(p, dict) and '_const' not in p:
-                which = ['all', 0, 1, 2][(i // every) % 4]
+                which = ['all', 0, 'alias', 1, 2, 'alias'][(i // every) % 6]
                 tasks.append((k, dict(p, _const=dict(which=which, seed=i + getattr(ctx, 'seed', 0))), opts))
     results = pmap(_one, tasks)
     solver_s = 0.0
